@@ -88,7 +88,7 @@ func (s *Sim) membershipConverged(want int) bool {
 		if !n.alive || n.parts == nil {
 			continue
 		}
-		if len(n.parts.ClusterConn.Nodes()) != want {
+		if m, _ := n.parts.ClusterConn.VerifNodes(); len(m) != want {
 			return false
 		}
 	}
